@@ -4,10 +4,12 @@ Each mutant = (name, file, old, new[, count]); old must occur exactly once (or `
 import difflib, os, sys
 VERIF = os.path.dirname(os.path.dirname(os.path.abspath(__file__)))
 sys.path.insert(0, os.path.join(VERIF, "tools"))
-from mutants_src import MUTANTS
+from mutants_src import MUTANTS, CONTROLS
 REPO = "/repo"
 ok = True
-for m in MUTANTS:
+os.makedirs(os.path.join(VERIF, "controls"), exist_ok=True)
+for m in [("mutants",) + tuple(x) for x in MUTANTS] + [("controls",) + tuple(x) for x in CONTROLS]:
+    folder, m = m[0], m[1:]
     name, file, old, new = m[:4]
     edits = [(file, old, new)] + list(m[4:]) if len(m) > 4 and isinstance(m[4], tuple) else [(file, old, new)]
     out = []
@@ -18,6 +20,6 @@ for m in MUTANTS:
         dst = src.replace(o, n)
         out += list(difflib.unified_diff(src.splitlines(True), dst.splitlines(True), "a/" + f, "b/" + f))
     if out:
-        open(os.path.join(VERIF, "mutants", name + ".patch"), "w").write("".join(out))
+        open(os.path.join(VERIF, folder, name + ".patch"), "w").write("".join(out))
 print("generated", len(MUTANTS), "mutants", "OK" if ok else "WITH ERRORS")
 sys.exit(0 if ok else 1)
